@@ -182,6 +182,7 @@ def main(tier, replay=None):
     def rline(rr):
         return "".join(rr.choice(WORDS + SEPS) for _ in range(rr.randint(0, 8)))
     n = 400 if tier == "quick" else 6000
+    npair = pmism = 0
     for i in range(n):
         rr = vlib.case_rng(chk.seed, PID, i)
         s = rline(rr)
@@ -223,6 +224,24 @@ def main(tier, replay=None):
         why = oracle(minus, plus, thr, parse_infer(rep))
         if why:
             chk.violation({"property": PID, "shape": "infer_edits", "why": "; ".join(why[:3]), "minus": minus, "plus": plus, "threshold": thr, "result": rep})
+        # correspondence of the pairing loop: the closeness oracle is read off the implementation pair by pair
+        # (a one-line block: paired or not), the model's loop over it must give the block's alignment
+        if len(minus) * len(plus) <= 16 and i % 2 == 0:
+            mx = []
+            for a_ in minus:
+                row = ""
+                for b_ in plus:
+                    one = drv.ask("infer_edits", enc([a_]), enc([b_]), vlib.hexs(RE), thr, 0.0)
+                    row += "1" if one.startswith("OK") and one.split("A:")[-1].strip() == "0-0" else "0"
+                mx.append(row)
+            want_al = vm.ask("pairing", len(minus), len(plus), ",".join(mx)).split("\t")[1]
+            got_al = rep.split("A:")[-1].strip()
+            npair += 1
+            if want_al != got_al:
+                pmism += 1
+                if pmism <= 3:
+                    vlib.log(f"[C06] pairing mismatch minus={minus} plus={plus} thr={thr} close={mx}: model {want_al} impl {got_al}")
+    chk.oblige("correspondence:line-pairing", pmism == 0, f"{pmism} of {npair} blocks are paired differently by the model's loop")
     # ---- single contiguous run
     for i in range(200 if tier == "quick" else 3000):
         rr = vlib.case_rng(chk.seed, PID, 70000 + i)
@@ -244,7 +263,7 @@ def main(tier, replay=None):
     chk.oblige("correspondence:tokenize+operations", mism == 0, f"{mism} of {nwb} white-box cases differ between model and implementation")
     chk.extra["traces_validated_against_impl"] = nwb - mism
     chk.assumptions = ["\\w of the regex crate = default_is_word on the generator's alphabet (checked by the tokenize correspondence)",
-                       "annotate / infer_edits (section building, whitespace coalescing, distance, pairing) are decided on the implementation by the oracle; the Coq model covers tokenisation and alignment"]
+                       "annotate (section building, whitespace coalescing, the distance value) is decided on the implementation by the oracle; the Coq models cover tokenisation, alignment and the line-pairing loop (over a closeness oracle read off the implementation)"]
     vm.close()
     drv.close()
     return chk.finish()
